@@ -37,7 +37,7 @@ type PatSpec struct {
 	// those patterns
 	Cross  bool `json:"cross,omitempty"`
 	Extra3 bool `json:"extra3,omitempty"`
-	Nest     bool     `json:"nest,omitempty"`   // listener 0 emits a nested custom event on the same resource
+	Nest   bool `json:"nest,omitempty"` // listener 0 emits a nested custom event on the same resource
 }
 
 // Op is one scripted operation of an actor.
@@ -138,7 +138,7 @@ type ReqView struct {
 type EpochInfo struct {
 	Conn           *simconn.Conn
 	ServeInvoke    uint64
-	Started        uint64 // seq of the first publish (system.reset)
+	Started        uint64 // seq of the system.reset published by Serve
 	ServeReturn    uint64
 	ServeErr       string
 	ShutdownInvoke uint64
@@ -827,7 +827,10 @@ func (e *Engine) newConn(ep *EpochInfo) *simconn.Conn {
 		return nil
 	}
 	c.OnPublish = func(p *simconn.PubRec) {
-		if ep.Started == 0 {
+		// an event begun before this Serve call may be published on this
+		// connection while the service is still starting; the started
+		// window begins with Serve's own system.reset
+		if ep.Started == 0 && p.Subject == "system.reset" && strings.HasPrefix(p.Task, "serve") {
 			ep.Started = p.Seq
 		}
 		if cls, detail := e.Mon.Validate(p); cls != "" {
